@@ -24,7 +24,10 @@ def run(ctx):
         quals = [f"Q{j}" for j in range(n)]
         if n >= 2 and ctx.rng.random() < 0.1:
             quals[1] = quals[0]  # duplicate qualifier: dict semantics
-        pool = [(quals[j], f"meaning {j}", valcorr.ahb_expr(ctx.rng)) for j in range(n)]
+        # entry expressions: all generators, plus a small fixed set of package-bearing expressions that recur across pools
+        # while the package definitions change from one content evaluation result to the next
+        pool = [(quals[j], f"meaning {j}", ctx.rng.choice(["X [1P]", "X [2P]", "Muss [1P]", "X [2P] U [4]", "X"]) if ctx.rng.random() < 0.3 else valcorr.ahb_expr(ctx.rng))
+                for j in range(n)]
         inp = ctx.rng.choice([None, "", "ZZZ"] + quals)
         de = ("P", "pool", pool, inp)
         status = ctx.rng.choice(STATUSES)
@@ -63,7 +66,7 @@ def run(ctx):
             continue
         n_nontrivial += 1 if len(pool) > 1 else 0
         key = f"{pool}|{inp}|{status}|{sorted(rc.items())}"
-        desc = {"pool": pool, "input": inp, "segment_status": status, "rc": rc, "fc": {k: list(x) for k, x in fc.items()}}
+        desc = {"pool": pool, "input": inp, "segment_status": status, "rc": rc, "fc": {k: list(x) for k, x in fc.items()}, "packages": dict(valcorr.CURRENT_PACKAGES)}
         got_offered = list((v.possible_values or {}).keys())
         if got_offered != offered:
             ctx.fail("offered|" + key, desc, f"offered qualifiers {offered}", f"{got_offered}", "oracle: offered values = admissible qualifiers in pool order")
@@ -104,7 +107,7 @@ def replay(path):
 
     r = json.load(open(path, encoding="utf-8"))
     inp = r["input"]
-    evalimpl.set_cer(rc=inp["rc"], hints={k: "H" + k for k in valcorr.HINTS}, fc={k: tuple(v) for k, v in inp["fc"].items()}, packages=dict(valcorr.PACKAGES))
+    evalimpl.set_cer(rc=inp["rc"], hints={k: "H" + k for k in valcorr.HINTS}, fc={k: tuple(v) for k, v in inp["fc"].items()}, packages=dict(inp.get("packages", valcorr.PACKAGES)))
     de = valcorr.to_maus(("P", "pool", [tuple(p) for p in inp["pool"]], inp["input"]))
     res = evalimpl.outcome(lambda: asyncio.run(validate_data_element_valuepool(de, R[inp["segment_status"]])))
     print("expected:", r["expected"], "| recorded:", r["observed"])
